@@ -163,6 +163,51 @@ class A(Adapter):
     def end_cause(self, ps, action, s, ts, env, cfg):
         return "all_agents_connected" if bool(self._finished(s).all()) else None
 
+    # ---- reach probes ------------------------------------------------------------------------------
+    def events(self, ps, action, s, ts, env, cfg):
+        fin1 = self._finished(s)
+        if ps is None:
+            lg = self.legal(s, env)
+            shared = bool((lg.sum(axis=0) >= 2).any())
+            return ((["reset_agent_without_legal_move"] if (~lg.any(axis=1) & ~fin1).any() else [])
+                    + (["reset_two_agents_share_a_legal_node"] if shared else []) + (["reset_agent_already_finished"] if fin1.any() else []))
+        adj = np.asarray(ps.adj_matrix).astype(bool)
+        types = np.asarray(ps.node_types)
+        pos0, pos1 = np.asarray(ps.positions), np.asarray(s.positions)
+        routes, fin0 = self._routes(ps), self._finished(ps)
+        ev = []
+        acts = [int(a) for a in action]
+        for i, a in enumerate(acts):
+            others = set().union(*[routes[j] for j in range(len(acts)) if j != i]) if len(acts) > 1 else set()
+            if fin0[i]:
+                ev.append("finished_agent_acts")
+            elif a == int(pos0[i]):
+                ev.append("agent_noop_names_own_node")
+            elif not adj[pos0[i], a]:
+                ev.append("agent_invalid_no_edge")
+            elif types[a] == -1 and a in others:
+                ev.append("agent_invalid_utility_node_used_by_other")
+            elif int(pos1[i]) == a:
+                ev.append("agent_moved")
+                kind = "utility_node" if types[a] == -1 else "own_group_node" if types[a] == i else "foreign_group_node"
+                ev.append(("agent_revisits_" if a in routes[i] else "agent_enters_new_") + kind)
+            else:
+                ev.append("agent_stayed_on_valid_choice")  # lost the random tie-break (or an unmodelled refusal)
+        live = [a for i, a in enumerate(acts) if not fin0[i] and adj[pos0[i], a]]
+        for a in set(live):
+            if live.count(a) >= 2:
+                ev.append("two_agents_want_same_node" if live.count(a) == 2 else "three_or_more_agents_want_same_node")
+        if int((pos0 != pos1).sum()) >= 2:
+            ev.append("agents_moving_simultaneously_ge2")
+        if (fin1 & ~fin0).any():
+            ev.append("agent_finished")
+        if fin1.all():
+            ev.append("end_all_agents_finished")
+        pi, width = np.asarray(getattr(s, "position_index", -1)), np.asarray(s.connected_nodes).shape[1]
+        if (pi + 1 >= width).any():
+            ev.append("route_buffer_full")
+        return ev
+
     # ---- C12 -------------------------------------------------------------------------------------
     def observe(self, s, obs, env, cfg):
         for name in ("adj_matrix", "positions", "step_count", "action_mask"):
